@@ -29,7 +29,7 @@ WD = r"<gmsol_model::action::withdraw::Withdrawal<M, DECIMALS> as gmsol_model::a
 
 
 def _s(cs, i):
-    return str(H.arg_at(cs, i))
+    return str(H.arg_at(cs, i)) if i < len(cs.args) else "<no-arg>"
 
 
 def _calls(f, name_re):
